@@ -5,6 +5,7 @@ import (
 	"fmt"
 	"os"
 	"sort"
+	"strconv"
 )
 
 // Violation is one observed refutation of a property on one concrete case.
@@ -117,6 +118,9 @@ func (r *Recorder) Violation(class, sig, msg string, caseJSON []byte, detail any
 		key = "sig:" + sig
 	}
 	r.res.ViolCount[key]++
+	if len(msg) > 6000 { // the case itself is in the replay file; a message is for reading
+		msg = msg[:4000] + " ...[" + strconv.Itoa(len(msg)-5000) + " bytes cut]... " + msg[len(msg)-1000:]
+	}
 	if r.perClass[key] < 5 {
 		r.perClass[key]++
 		r.res.Violations = append(r.res.Violations, Violation{Property: r.Prop, Class: class, Sig: sig, Msg: msg, Case: append([]byte{}, caseJSON...), Detail: detail, CaseIdx: r.CurIdx})
